@@ -72,7 +72,7 @@ def u1_problems(s):
                 else:
                     comps = (obs,)
                 if s.scale != 1 or s.bias != 0:
-                    sc, bi = (s.scale.item() if isinstance(s.scale, np.generic) else s.scale), (s.bias.item() if isinstance(s.bias, np.generic) else s.bias)   # (NumPy parameters: python numbers, the limits are not expected in the parameter's narrow type)
+                    sc, bi = (s.scale.item() if isinstance(s.scale, (np.generic, np.ndarray)) and np.ndim(s.scale) == 0 else s.scale), (s.bias.item() if isinstance(s.bias, (np.generic, np.ndarray)) and np.ndim(s.bias) == 0 else s.bias)   # (NumPy parameters: python numbers, the limits are not expected in the parameter's narrow type)
                     cand = set()
                     try:
                         ex = F(sc) * e + (F(bi) if name != 'precision' else 0)
